@@ -172,6 +172,8 @@ partial def parsePipe (env : Env) : Sexp → Option Obsv
   | .list [.atom "skip_until", p, t] => do some (oSkipUntil (← parsePipe env p) (← parsePipe env t))
   | .list [.atom "sample", p, t] => do some (oSample (← parsePipe env p) (← parsePipe env t))
   | .list [.atom "switch_on_next", p, t] => do some (oSwitchOnNext (← parsePipe env p) (← parsePipe env t))
+  | .list [.atom "window_with_count", n, p] => do some (oWindowWithCount (← n.asNat) (← parsePipe env p))
+  | .list [.atom "group_by", f, p] => do some (oGroupBy (← parseFn f) (← parsePipe env p))
   | .list [.atom "flat_map", f, p] => do some (oFlatMap (← parseFm env f) (← parsePipe env p))
   | .list [.atom "retry", n, p] => do some (oRetry (← n.asNat) (← parsePipe env p))
   | .list [.atom "retry_when", f, p] => do some (oRetryWhen (← parseEPred f) (← parsePipe env p))
